@@ -127,8 +127,21 @@ LITERALS = ["Name", "Size", "Mode", "Path", "Extension", "Directory", "Modified"
 LIT_COMPANY = ["name", "size", "mode", "path", "ext", "dir", "modified", "hardlinks", "is_dir"]
 
 
+# expressions whose texts are easily confused once quotes are dropped: each column must show what it shows alone
+CONFUSABLE = [["length('Size')", "length(size)"], ["concat('a, b')", "concat('a', 'b')"], ["length(upper('x'))", "length('Upper(x)')"],
+              ["1 + 2", "'1 + 2'"], ["least(size, 1, 2)", "least(size, '1, 2')"], ["upper('Name')", "upper(name)"],
+              ["concat_ws(name, 'a', 'b')", "concat_ws(name, 'a, b')"], ["length('Name') + size", "length(name) + size"],
+              ["(1 + 2) * 2", "'(1 + 2) * 2'"], ["concat('Size', ': ', size)", "concat(size, ': ', size)"]]
+
+
 @st.composite
 def literal_case_(draw):
+    if draw(st.booleans()):
+        pair = list(draw(st.sampled_from(CONFUSABLE)))
+        if draw(st.booleans()):
+            pair.reverse()
+        tree = {nm: {"t": "f", "size": sz} for nm, sz in zip(draw(st.lists(st.sampled_from(_fnames), min_size=2, max_size=3, unique=True)), [4, 12, 7])}
+        return {"kind": "literals", "tree": tree, "pair": pair, "company": draw(st.lists(st.sampled_from(["size", "mode", "path"]), max_size=2, unique=True))}
     lits = draw(st.lists(st.sampled_from(LITERALS), min_size=1, max_size=3, unique=True))
     comp = draw(st.lists(st.sampled_from(LIT_COMPANY), min_size=1, max_size=4, unique=True))
     wrap = draw(st.sampled_from(["plain", "plain", "upper", "concat", "contains"]))
@@ -143,6 +156,26 @@ def check_literals(case):
     os.mkdir(base)
     try:
         trees.materialize(base, case["tree"])
+        if "pair" in case:
+            cols = case["pair"] + case["company"]
+            alone = []
+            for c in case["pair"]:
+                got, q1 = run_select(out, base, [c])
+                if got is None:
+                    return out
+                alone.append(got)
+            both, q = run_select(out, base, cols)
+            if both is None:
+                return out
+            for nm, cells in both.items():
+                for i, c in enumerate(case["pair"]):
+                    if nm in alone[i] and alone[i][nm][0] != cells[i]:
+                        out.add("C15/independence/confusable-texts", query=q, expr=c, name=nm, alone=alone[i][nm][0], in_company=cells[i])
+                        return out
+            out.nontrivial = True
+            out.classes = ["confusable-expression-texts"]
+            out.sample = {"query": q}
+            return out
         w = case["wrap"]
         def col(l):
             return {"plain": "'%s'", "upper": "upper('%s')", "concat": "concat('%s', '!')", "contains": "contains('%s')"}[w] % l
